@@ -31,6 +31,7 @@
 #include <boost/msm/front/state_machine_def.hpp>
 #include <boost/msm/front/functor_row.hpp>
 #include <boost/msm/front/internal_row.hpp>
+#include <boost/msm/front/row2.hpp>
 #include <boost/msm/front/operator.hpp>
 #include <boost/msm/front/history_policies.hpp>
 #include <boost/msm/active_state_switching_policies.hpp>
